@@ -25,12 +25,17 @@ tvars == <<vars, l, flags, tid>>
 Ev(e) == l <= Len(Log) /\ Log[l].ev = e
 Rec(r) == [rb |-> r.rb, sb |-> r.sb, mm |-> r.mm, mc |-> r.mc]
 
-TInit == /\ l = 1 /\ flags = {} /\ tid = 0
-         /\ ccfg = NoCfg /\ scfg = NoCfg /\ st = "none" /\ hello = NoCfg /\ ack = NoCfg
-         /\ lim = NoLim /\ msg = NoMsg
-         /\ TLCSet(1, 1)
+\* Batch mode: every trace of the file is validated as its own behaviour (one initial state per
+\* "cfg" event), so that a rejected trace does not stop the others; a trace is accepted iff its
+\* TEnd step prints a ROW.  TInit1 (l = 1, with HighWater/Accepted) is the single-trace mode that
+\* reports the first event no action matches.
+Base == /\ flags = {} /\ tid = 0
+        /\ ccfg = NoCfg /\ scfg = NoCfg /\ st = "none" /\ hello = NoCfg /\ ack = NoCfg
+        /\ lim = NoLim /\ msg = NoMsg
+TInit  == /\ l \in {i \in 1..Len(Log) : Log[i].ev = "cfg"} /\ Base
+TInit1 == /\ l = 1 /\ Base /\ TLCSet(1, 1)
 
-TReset == /\ Ev("cfg") /\ st \in {"none", "ended"}
+TReset == /\ Ev("cfg") /\ st = "none"
           /\ ccfg' = Rec(Log[l].c) /\ scfg' = Rec(Log[l].s) /\ tid' = Log[l].id
           /\ st' = "init" /\ hello' = NoCfg /\ ack' = NoCfg /\ lim' = NoLim /\ msg' = NoMsg
           /\ flags' = {} /\ l' = l + 1
